@@ -56,6 +56,7 @@ def fmtEv : Ev → String
   | .answer b => s!"ans {b}"
   | .threwLogic => "logic_error"
   | .reporterWas r => s!"was r{r}"
+  | .okReporterWas r => s!"okwas r{r}"
   | .badOp => "bad-op"
 
 def fmtEvs (evs : List Ev) : String :=
